@@ -5,3 +5,6 @@ pub mod shard;
 pub mod vclock;
 pub mod wire;
 pub mod pl;
+pub mod plmon;
+pub mod pleng;
+pub mod sched;
